@@ -103,6 +103,7 @@ def read_back(ctx, sig, tree, m, limit, lim_arg, descs):
 def run_case(ctx):
     src = ctx.src
     common.draw_env(ctx)
+    common.prelude(ctx)
     m = world.gen_world(src, max_boxes=12, scale=("manyboxes", "farcorner", "manyfields"), scale_rate=80)
     master = os.path.join(ctx.scratch, "master")
     world.write_plotfile(m, master)
